@@ -405,7 +405,10 @@ def check(run, repo):
         'dSoR/dT == CpoR/T slot by slot; one H- and one S-integration-constant slot; GoRT == HoRT - SoR '
         'with identical arguments; Nasa.get_a on the 7 orderings of T against T_low<T_mid<T_high; '
         'Nasa9._get_nasa on every position of T relative to 1-4 segments (refusal outside); class getters use '
-        'the containing segment; array evaluation equals element-wise evaluation (bounded unrolling).')
+        'the containing segment, also when the segments are listed from high to low or leave a gap; array evaluation '
+        'equals element-wise evaluation (bounded unrolling); a result buffer must not take its element type from the '
+        'caller\'s temperature container, and a temperature argument is not raised to a negative integer power before '
+        'it is made a float (integer temperatures).')
     run.assumptions = ['identities are over the reals (IEEE rounding not modelled)',
                        'scalar/array agreement is decided for array lengths up to the stated bound; the '
                        'loops are uniform in the index']
